@@ -335,6 +335,10 @@ func (dec *Decoder) ReadReference(p interface{}) {
 
 // ResetReader reuse decoder instance by specifying another reader.
 func (dec *Decoder) ResetReader(reader io.Reader) *Decoder {
+	if dec.reader == nil {
+		// without a reader dec.buf is the caller's input, not a read buffer
+		dec.buf = nil
+	}
 	dec.reader = reader
 	dec.head = 0
 	dec.tail = 0
